@@ -466,3 +466,16 @@ def ambient_reads():
 
 def seed_of(rng):
     return getattr(rng, "_pyvc_seed", None)
+
+
+OUTPUT_LOG = []  # filled by the native replay (json.dumps is wrapped)
+
+
+def outputs():
+    return list(OUTPUT_LOG)
+
+
+def size_of_text(x):
+    import sys as _sys
+
+    return _sys.getsizeof(x)
